@@ -87,6 +87,14 @@ def gen(tier, rng, own=()):
                    ["fixed"] if fault in ("dist_sym_30", "ll_sym_286") else ["stored"] if fault == "len_nlen" else ["fixed", "dynamic"]
             st = defgen.too_far_stream(rng) if fault == "dist_too_far" else defgen.make_stream(rng, plan, fault=fault, fault_block=0 if fault != "btype3" else rng.choice([0, 1]))
             runs(st, 0, {"family": "fault:" + fault, "expect_ret": CODE[cls]}, inflfam.KERNEL_CPUS)
+    # a distance reaching before the start of the output, one-shot with EVERY output size (the output may end before, at or inside the offending
+    # match) under every kernel: an error or 'output too small' are both acceptable answers, success or bytes the spec did not produce are not
+    for nlit, mlen, over in ((3, 3, 1), (1, 10, 4), (5, 40, 20), (2, 258, 100)) + (((7, 17, 2), (30, 100, 1)) if tier == "thorough" else ()):
+        st = defgen.too_far_stream(rng, nlit, mlen, over)
+        for ao in range(0, nlit + mlen + 3):
+            for cpu in inflfam.KERNEL_CPUS:
+                scns.append(igz.scenario(len(scns), "inflate_stateless", list(st), wrap=0, calls=[[len(st), ao, 0, 0]], tail_ai=len(st), tail_ao=ao, cap=4, mem=ao % 3, prefill=ao % 3,
+                                         meta={"family": "invalid-lookback-every-output-size", "cpu": cpu, "complete_supply": True}))
     # undecodable data under an incomplete code set: a deep code set with its last code dropped, and that unassigned code used, in the
     # second block of a stream whose first block filled the decoder's lookup tables (stale entries); also on a reused decoder state
     for fault in ("use_undefined_dist", "use_undefined_ll"):
